@@ -1059,6 +1059,22 @@ func TestVerifC13Mutating(t *testing.T) {
 			}
 		}
 
+		if translatedTier == "koord-batch" {
+			// evidence only: the code documents (TODO) that init containers and the overhead are not summarised
+			anno := c13Anno{}
+			_ = json.Unmarshal([]byte(pod1.Annotations[c13AnnoKey]), &anno)
+			for i := range pod1.Spec.InitContainers {
+				ic := &pod1.Spec.InitContainers[i]
+				_, a := ic.Resources.Requests[c13BatchCPU]
+				_, b := ic.Resources.Requests[c13BatchMemory]
+				_, d := ic.Resources.Limits[c13BatchCPU]
+				_, e := ic.Resources.Limits[c13BatchMemory]
+				if _, ok := anno.Containers[ic.Name]; !ok && (a || b || d || e) {
+					c.Count("m_annotation_silent_about_batch_init_container", 1)
+				}
+			}
+		}
+
 		// idempotence: admit the result again
 		raw2, pod2, resp2, err := c13Admit(ctx, h, raw1)
 		if err != nil {
@@ -1113,6 +1129,8 @@ func TestVerifC13Mutating(t *testing.T) {
 				switch {
 				case strings.Contains(msg, "must specify koordinator QoS BE") && qos == "none":
 					c.Count("converse_misses_m_cause_batch_pod_be_only_by_default", 1)
+				case (qos == "LSR" || qos == "LSE") && c13WholeCPU(pod1) == "whole-in-milli":
+					c.Count("converse_misses_m_cause_lsx_cpu_whole_only_per_container_milli", 1)
 				case strings.Contains(msg, "must specify koordinator QoS BE") && len(pod1.Spec.Overhead) > 0:
 					c.Count("converse_misses_m_cause_batch_only_in_overhead", 1)
 				default:
